@@ -145,7 +145,7 @@ class ReplaceAroundStep(Step):
         ):
             return StepResult.fail("Structure gap-replace would overwrite content")
         gap = doc.slice(self.gap_from, self.gap_to)
-        if gap.open_start or gap.open_end:
+        if self.gap_from > self.gap_to or gap.open_start or gap.open_end:
             return StepResult.fail("Gap is not a flat range")
         inserted = self.slice.insert_at(self.insert, gap.content)
         if not inserted:
